@@ -43,12 +43,16 @@ input InA {
   q: String
   n: Int = 3
 }
+
+type Plain {
+  p: String
+}
 `
 
 var rootNames = map[string]bool{"Query": true, "Mutation": true, "Subscription": true}
 
 var fieldWords = []string{"alpha", "bravo", "charlie", "delta", "echo", "foxtrot", "golf", "hotel", "kilo", "lima"}
-var typeWords = []string{"Todo", "User", "Item", "Order", "Widget", "Gizmo"}
+var typeWords = []string{"Todo", "User", "Item", "Order", "Widget", "Gizmo", "APIKey", "ImageUrl", "User_Profile", "Type"}
 var scalarTypes = []string{"String!", "String", "Int", "Int!", "Boolean!", "[String!]!", "ID!", "Float", "[Int]"}
 var argPool = []string{"", "", "(x: Int)", "(id: ID!, n: Int = 3)", "(in: InA!)", "(names: [String!])"}
 
